@@ -150,6 +150,8 @@ struct Case {
     /// which constructor builds the iterator of a reference-yielding or range source: into (default) | con_iter_vec |
     /// con_iter_array | con_iter_slice | con_iter_range | from
     ctor: String,
+    /// a wrapped iterator that is not fused: this call of next() returns None spuriously (checker-only cases)
+    gap: Option<u64>,
 }
 
 fn on_parse(s: &str) -> Option<u64> {
@@ -217,6 +219,7 @@ fn read_cases(input: &mut dyn BufRead) -> Vec<Case> {
                     mprogs: vec![],
                     chunkstyle: String::new(),
                     ctor: String::new(),
+                    gap: None,
                 })
             }
             "env" => {
@@ -261,6 +264,7 @@ fn read_cases(input: &mut dyn BufRead) -> Vec<Case> {
             "elem" => cur.as_mut().unwrap().env.elem = w[1].to_string(),
             "chunkstyle" => cur.as_mut().unwrap().chunkstyle = w[1].to_string(),
             "ctor" => cur.as_mut().unwrap().ctor = w[1].to_string(),
+            "gap" => cur.as_mut().unwrap().gap = on_parse(w[1]),
             "multi" => {
                 let c = cur.as_mut().unwrap();
                 c.multi = w[1].parse().unwrap();
@@ -1049,6 +1053,7 @@ fn run_case(case: &Case) -> Vec<String> {
     *STYLE.lock().unwrap() = case.chunkstyle.clone();
     SRC_CALLS.store(0, Ordering::SeqCst);
     SRC_CRASH.store(case.env.crash.map(|x| x as usize).unwrap_or(usize::MAX), Ordering::SeqCst);
+    SRC_GAP.store(case.gap.map(|x| x as usize).unwrap_or(usize::MAX), Ordering::SeqCst);
     CALLER_PHASE.store(false, Ordering::SeqCst);
     let env = &case.env;
     if case.multi > 0 {
